@@ -18,7 +18,15 @@ CONSTANT Dev
 Usable(e) == e.kind \in {"tcp", "hostport", "unix"}
 EpOf(e) == [kind |-> IF e.kind = "unix" THEN "unix" ELSE "tcp", host |-> e.host, port |-> e.port, path |-> e.path]
 Lines(v) == [i \in 1..Len(v.existing) |-> v.existing[i].line]
-Matching(v) == {i \in 1..Len(v.existing) : v.existing[i].first = v.requested}
+\* the requested value is present: it names a configured line by its first word, or in full (options included), or -
+\* both without option words - it denotes the same listener in another spelling (9052 for 127.0.0.1:9052)
+Matching(v) == {i \in 1..Len(v.existing) :
+                  \/ v.existing[i].first = v.requested
+                  \/ v.existing[i].line = v.requested
+                  \/ /\ Usable(v.existing[i]) /\ v.existing[i].line = v.existing[i].first /\ v.requested = v.reqfirst
+                     /\ EpOf(v.existing[i]) = v.reqep}
+\* v.twice: the same request is made a second time once the first has completed; obs covers both (nset counts every
+\* SETCONF): the second finds the port present, so nothing is added to what the first one did
 UsableIdx(v) == {i \in 1..Len(v.existing) : Usable(v.existing[i])}
 \* known finding: "SOCKSPort 0" (SOCKS disabled) is taken for a usable port
 ZeroIdx(v) == {i \in 1..Len(v.existing) : v.existing[i].kind = "zero"}
